@@ -69,7 +69,7 @@ func (g *Gen) AddLeaf(shape []int, tracked bool) int {
 	}
 	v := DrawVals(g.T, ref.Prod(shape), g.nleaf, -24, 24)
 	g.nleaf++
-	g.P.Leaves = append(g.P.Leaves, Leaf{Shape: ref.Cp(shape), Vals: v, Tracked: tracked})
+	g.P.Leaves = append(g.P.Leaves, Leaf{Shape: ref.Cp(shape), Vals: v, Tracked: tracked, Via: DrawVia(g.T)})
 	g.Vals = append(g.Vals, ref.FromVals(shape, v))
 	return len(g.Vals) - 1
 }
